@@ -122,8 +122,9 @@ def heuristic_precondition(cols, n):
 @st.composite
 def segy_source(draw, geom="regular", max_dim=12, max_ns=40, fields=True, allow_mid=True, ns_min=2, dims=None):
     d = {"geom": geom, "fmt": draw(st.sampled_from([1, 5])), "ext": draw(st.sampled_from([0, 0, 0, 1, 2])),
-         "dt_us": draw(st.sampled_from([4000, 2000, 1000, 500, 250, 3000])),
-         "delay": draw(st.sampled_from([0, 0, 0, 100, -40, 12])),
+         # (700 and 1001 us are no multiples of 1/512 ms; delays beyond 16 s are where float32 milliseconds lose the microsecond)
+         "dt_us": draw(st.sampled_from([4000, 2000, 1000, 500, 250, 3000, 700, 1001])),
+         "delay": draw(st.sampled_from([0, 0, 0, 100, -40, 12, 20000, -25000])),
          "values": draw(gen.values_spec), "text_seed": draw(st.integers(0, 999)),
          "bin": {str(k): draw(st.integers(-2 ** 15, 2 ** 15 - 1)) for k in
                  draw(st.lists(st.sampled_from(FREE_BIN), max_size=3, unique=True))}}
